@@ -308,9 +308,9 @@ _TEXTS = {
     "C05": (_T_C, "Deductive: dist, dist_mic, dist_mic_triclinic for ALL frames and pairs (loop invariants): lattice congruence with explicit integer witnesses, "
             "wrap bounds, box reduction keeps the lattice, all 27 images examined, result is one of them and not longer than any, d^2=|out|^2, frame conditions; lemma L1; "
             "compute_distances_core dispatch (minimum-image path iff periodic and cell; orthorhombic kernel iff every frame orthogonal; box transposed once); "
-            "the time-pair kernels dist_t / dist_mic_t (atom a from frame t1, atom b from frame t2, cell of t1). "
+            "the time-pair kernels dist_t / dist_mic_t / dist_mic_triclinic_t (atom a from frame t1, atom b from frame t2, cell of t1, cell pointer restored after every time pair). "
             "The NumPy reference path (opt=False): _distance, _displacement, _reduce_box_vectors (lattice-preserving, reduced), _distance_mic (wrapped vector in the "
-            "centred cell, minimum over its 27 images) on symbolic coordinates. Bounded only: float32 effects, dist_mic_triclinic_t, _displacement_mic, the _t reference paths."),
+            "centred cell, minimum over its 27 images) on symbolic coordinates. Bounded only: float32 effects, _displacement_mic, the _t reference paths."),
     "C06": (_T_C, "Deductive: msdFromMandG on a symbolic inner-product matrix: the code's C_2, C_1, C_0 are the coefficients of det(K - xI) for the Horn/Theobald key "
             "matrix K(M) (exact polynomial identities on the code's own terms), Horn's identity q^T K q = <R(q), M>, msd = max(0,(G_x+G_y-2 lambda)/N), the code's quaternion is "
             "the cofactor vector of K - lambda I (an eigenvector), rot = R(q/|q|) with R^T R = I and det R = +1; Trajectory.superpose / center_coordinates keep the trace "
